@@ -33,8 +33,14 @@ Perm4 == SetToSeq({p \in [1..4 -> 1..4] : \A x, y \in 1..4 : x # y => p[x] # p[y
 Reductions == {"min_element", "max_element", "min_position", "max_position",
                "is_nan", "is_finite", "is_negative_bitmask"}
 
+\* lifted primitives whose VALUE the specification does not compute (exp, powf): the specification only says that every lane is the
+\* primitive of that lane's operands alone -- the expectation "prim" is resolved by the harness with the Rust primitive, lane by lane
+PrimUnary == {"exp"}
+PrimScalar == {"powf"}
 Calls ==
          [kind : {"u"},  op : Unary \cup Tests, i : 1..N1, j : {0}, k : {0}]
+    \cup [kind : {"u"},  op : PrimUnary, i : 1..N1, j : {0}, k : {0}]
+    \cup [kind : {"vs"}, op : PrimScalar, i : Lead4(N1), j : 1..N1, k : {0}]
     \cup [kind : {"b"},  op : Binary,    i : Lead4(N1), j : 1..N1, k : {0}]
     \cup [kind : {"vs"}, op : ScalarRhs, i : Lead4(N1), j : 1..N1, k : {0}]
     \cup [kind : {"sv"}, op : ScalarRhs, i : Lead4(N1), j : 1..N1, k : {0}]
@@ -65,7 +71,8 @@ Args(c) ==
 
 Eval(c) ==
     LET a == Args(c) IN
-    CASE c.kind = "u" /\ c.op \in Unary -> Both(LAMBDA f : Vec1(f, c.op, a[1]))
+    CASE c.op \in PrimUnary \cup PrimScalar -> "prim"
+      [] c.kind = "u" /\ c.op \in Unary -> Both(LAMBDA f : Vec1(f, c.op, a[1]))
       [] c.kind = "u" /\ c.op \in Tests -> VecTest(c.op, a[1])
       [] c.kind = "b"  -> Both(LAMBDA f : Vec2(f, c.op, a[1], a[2]))
       [] c.kind = "vs" -> Both(LAMBDA f : Vec2(f, c.op, a[1], Splat(4, a[2])))
@@ -114,7 +121,8 @@ EncArgs(c) ==
 
 EncBoth(r) == [f32 |-> EncV(r.f32), f64 |-> EncV(r.f64)]
 EncRes(c, r) ==
-    CASE c.kind = "u" /\ c.op \in Unary -> EncBoth(r)
+    CASE c.op \in PrimUnary \cup PrimScalar -> r
+      [] c.kind = "u" /\ c.op \in Unary -> EncBoth(r)
       [] c.kind \in {"b", "vs", "sv", "f"} -> EncBoth(r)
       [] c.kind = "t" /\ c.op # "abs_diff_eq" -> EncBoth(r)
       [] c.kind = "r" /\ c.op \in {"min_element", "max_element"} ->
